@@ -34,6 +34,8 @@ import (
 
 var ErrNonExisting = errors.New("unable to validate non existing package")
 
+const constraintsFailedReason = "ConstraintsFailed"
+
 // PackageDeployer loads package contents from file, wraps it into an ObjectDeployment and deploys it.
 type PackageDeployer struct {
 	client         client.Client
@@ -151,6 +153,13 @@ func (l *PackageDeployer) Deploy(
 	if err := validateConstraints(ctx, l.uncachedClient, apiPkg, pkg.Manifest, env); err != nil {
 		setInvalidConditionBasedOnLoadError(apiPkg, err)
 		return err
+	}
+	if constraintsFailed(apiPkg) {
+		// The Invalid condition has been set by validateConstraints.
+		// A package whose constraints are not met must not be deployed.
+		// Explicitly do not return an error here to avoid re-pulling
+		// the package over and over again.
+		return nil
 	}
 
 	// prepare package render/template context
@@ -376,13 +385,23 @@ func validateConstraints(
 		meta.SetStatusCondition(apiPkg.GetConditions(), metav1.Condition{
 			Type:               corev1alpha1.PackageInvalid,
 			Status:             metav1.ConditionTrue,
-			Reason:             "ConstraintsFailed",
+			Reason:             constraintsFailedReason,
 			Message:            "Constraints not met: " + strings.Join(messages, ", "),
 			ObservedGeneration: apiPkg.ClientObject().GetGeneration(),
 		})
 	}
 
 	return nil
+}
+
+// constraintsFailed reports whether validateConstraints flagged unmet constraints
+// for the current generation of the package.
+func constraintsFailed(apiPkg adapters.GenericPackageAccessor) bool {
+	cond := meta.FindStatusCondition(*apiPkg.GetConditions(), corev1alpha1.PackageInvalid)
+	return cond != nil &&
+		cond.Status == metav1.ConditionTrue &&
+		cond.Reason == constraintsFailedReason &&
+		cond.ObservedGeneration == apiPkg.ClientObject().GetGeneration()
 }
 
 func platformConstraintMet(
